@@ -8,7 +8,19 @@ from ..base import AnalysisError, Defs, U, bool_guards, own_nodes, stmts, bind_a
 def run(repo, res):
     res.rule("R22.1", "the only stores to mutation_nodes / mutation_edges are masked by mutation_blocks != NULL; the stored node is edge_children[e] with e chosen from the two edges of the mutation's own block; _block_singletons fills a block's two edges only from edges whose child belongs to the same unphased individual")
     res.rule("R22.2", "singletons_phased flows unchanged from the API to np.full(num_individuals, singletons_phased) and, negated, to block_singletons; block_singletons rejects non-diploid / non-contemporary individuals only under the mask")
+    from ..paths import enum_paths
+    from .common import borrow
+
+    borrow(repo, res, "c23", "R23.3", "R22.3", "(= R23.3) rescaling reallocates the singleton counts of the very table its kernel reads, so the result never depends on which of an individual's two nodes carried the singleton in the input")
+    res.rule("R22.4", "every path through infer() re-places the unphased singletons (stores to mutation_edges and mutation_nodes under the block mask), whatever the rescaling options: the reported mutation nodes never keep the input's arbitrary phase")
     inf = repo.fn("variational", "ExpectationPropagation.infer")
+    paths = [p for p in enum_paths(inf) if p.exit in ("fall", "return")]
+    if not paths:
+        raise AnalysisError("R22.4: no completing path through ExpectationPropagation.infer")
+    for p in paths:
+        conds = " and ".join(("" if e[2] else "not ") + U(e[1]) for e in p.conds() if "rescale" in U(e[1])) or "always"
+        placed = {U(t.value) for st in p.stmts() if isinstance(st, ast.Assign) for t in st.targets if isinstance(t, ast.Subscript) and U(t.value) in ("self.mutation_nodes", "self.mutation_edges")}
+        res.require(placed == {"self.mutation_nodes", "self.mutation_edges"}, "R22.4", f"variational.ExpectationPropagation.infer path[{conds}] places every unphased singleton", f"stores on this path: {sorted(placed) or 'none'}: with these options singletons stay on the node the input happened to put them on", repo.loc(inf), "mutation_edges and mutation_nodes rewritten")
     d = Defs(inf)
     n = 0
     for s, g in stmts(inf):
@@ -98,6 +110,8 @@ def run(repo, res):
 
 
 VARIANTS = [
+    dict(name="reallocate-other-table", mod="variational", expect="fire", rule="R22.3", old="        reallocate_unphased(  # correct mutation counts for unphased singletons\n            likelihoods,", new="        reallocate_unphased(  # correct mutation counts for unphased singletons\n            self.sizebiased_likelihoods,"),
+    dict(name="placement-only-when-rescaling", mod="variational", expect="fire", rule="R22.4", old="        self.mutation_edges[singletons] = switched_edges\n        self.mutation_nodes[singletons] = self.edge_children[switched_edges]\n\n        if rescale_intervals > 0 and rescale_iterations > 0:\n", new="        if rescale_intervals > 0 and rescale_iterations > 0:\n            self.mutation_edges[singletons] = switched_edges\n            self.mutation_nodes[singletons] = self.edge_children[switched_edges]\n"),
     dict(name="all-mutations-rephased", mod="variational", expect="fire", rule="R22.1", old="        singletons = self.mutation_blocks != tskit.NULL\n", new="        singletons = self.mutation_blocks != -2\n"),
     dict(name="node-not-child-of-edge", mod="variational", expect="fire", rule="R22.1", old="        self.mutation_nodes[singletons] = self.edge_children[switched_edges]", new="        self.mutation_nodes[singletons] = self.edge_parents[switched_edges]"),
     dict(name="edge-from-other-block", mod="variational", expect="fire", rule="R22.1", old="            self.block_edges[switched_blocks, 1],\n            self.block_edges[switched_blocks, 0],", new="            self.block_edges[switched_blocks - 1, 1],\n            self.block_edges[switched_blocks, 0],"),
